@@ -728,6 +728,29 @@ def c16(tier, replay):
         for pre in ([], [{"do": "send", "line": first}], [{"do": "send", "line": first}, {"do": "go", "line": "go"}, {"do": "send", "line": "ucinewgame"}]):
             sessions.append(pre + probe)
             shard.append(nprobe + 40 + ci)
+    # probes whose game record contains positions that have occurred twice and can be entered again (whatever the search makes
+    # of a repetition must not depend on which side an EARLIER go of the session was asked to move for), timed, fresh and after
+    # a go with the other side to move (the probe's own game one move short / another position)
+    scen_path = os.path.join(vcommon.BUILD, "scen-C16-%d.json" % os.getpid())
+    vcommon.run_harness(h, ["scen", "--out", scen_path, "--seed", vcommon.seed() + 16, "--small", 0, "--mate", 0, "--rep", 5 if q else 30, "--game", 0])
+    reps = [x["cmd"] for x in json.load(open(scen_path)) if x["tag"] == "rep"]
+    os.remove(scen_path)
+    for ri, cmd in enumerate(reps):
+        probe = [{"do": "send", "line": cmd}, {"do": "go", "line": "go wtime 475 btime 475 movestogo 1", "extra": {"probe": "rep%d" % ri, "timed": True}}]
+        short = cmd.rsplit(" ", 1)[0]
+        for pre in ([], [{"do": "send", "line": short}, {"do": "go", "line": rng.choice(GO_SMALL)}],
+                    [{"do": "send", "line": "ucinewgame"}, {"do": "send", "line": short}, {"do": "go", "line": rng.choice(GO_ZERO)}, {"do": "send", "line": rng.choice(live)}]):
+            sessions.append(pre + probe)
+            shard.append(nprobe + 44 + ri % 6)
+    run.cov["probes_with_a_repetition_on_offer"] = len(reps)
+    # a forced reply searched with a long allowance right before a timed probe (a search that is answered early must not keep
+    # talking into the next request)
+    for fi, f in enumerate(FORCED[:3 if q else 8]):
+        cmd = live[fi % len(live)]
+        probe = [{"do": "send", "line": cmd}, {"do": "go", "line": "go wtime 700 btime 700 movestogo 2", "extra": {"probe": "fr%d" % fi, "timed": True}}]
+        for pre in ([], [{"do": "send", "line": f}, {"do": "go", "line": "go wtime 1100 btime 1100 movestogo 1"}]):
+            sessions.append(pre + probe)
+            shard.append(nprobe + 30 + fi % 6)
     # probes whose move list contains promotions of every kind (a replayed under-promotion must not depend on anything
     # but its letter), asked of a fresh process and of one whose logging was switched on before (setoption DebugLogLevel
     # Info is the one option the engine has; whatever is formatted for the log is only evaluated then)
